@@ -287,7 +287,21 @@ QUICK = [
     ("recv_cancel", 1, 3),
     ("restore_two_refresh", 1, 3),
     ("scan_cancel", 1, 3),
+    ("restored_scan_receive2", 1000, 2),
 ]
+# scenarios judged by a state invariant of every final state instead of serial equivalence and the
+# model: a wallet restored from its phrase that receives payments while its first scan is still
+# running draws keys below the index the scan is about to restore — in most schedules (and already
+# in the serial order "receive, then scan") that is no serial order's outcome, harmless or not, so
+# serial equivalence separates nothing there. What every schedule must keep: the next key index of
+# an account lies above every path recorded for it (else the next operation reuses a key and
+# overwrites a pending output).
+INVARIANT_ONLY = {"restored_scan_receive2"}
+
+
+def not_fresh(snap):
+    ch = {c[0]: c[1] for c in snap["child"]}
+    return [(o["acct"], o["child"], ch.get(o["acct"], 0)) for o in snap["outputs"] if o["child"] >= ch.get(o["acct"], 0)]
 THOROUGH = [(s, (2 if b == 1 else b), 3) for s, b, _ in QUICK] + [("send3", 1000, 2)]
 
 KNOWN_TEXT = {
@@ -399,6 +413,8 @@ def run(tier, replay):
     extra = "".join("Definition c20_s%d := %s.\nDefinition c20_k%d := %s.\n"
                     % (i, state_term(h), i, cL([kind_term(t) for t in h["threads"]]))
                     for i, h in enumerate(headers))
+    inv_runs = [r for r in runs if headers[r["_h"]]["scenario"] in INVARIANT_ONLY]
+    runs = [r for r in runs if headers[r["_h"]]["scenario"] not in INVARIANT_ONLY]
     terms = ["(c20_s%d, c20_k%d, %s)" % (r["_h"], r["_h"], cL([cN(t) for t in r["schedule"]])) for r in runs]
     model = vlib.coq_eval(PROP, "From GW Require Import Select Sched.", "run_case", terms, shard=250,
                           extra_defs=extra) if runs else []
@@ -455,6 +471,30 @@ def run(tier, replay):
             "schedules": len(items), "serial_schedules": sum(1 for r, _, _ in items if serial(threads, r["schedule"])),
             "serial_finals": len(ser), "distinct_finals": len(fin), "non_serializable_known_shape": n_known,
             "non_serializable_other": n_bad, "model_divergences": n_div}
+
+    # ---- invariant-only scenarios
+    inv_fail = []
+    inv_by = collections.Counter()
+    for r in inv_runs:
+        h = headers[r["_h"]]
+        inv_by[h["scenario"]] += 1
+        if r["deadlock"]:
+            deadlocks.append({"scenario": h["scenario"], "threads": list(h["threads"]), "schedule": r["schedule"],
+                              "steps": r["steps"]})
+            continue
+        nf = not_fresh(r["snapshot"])
+        if nf:
+            inv_fail.append({"scenario": h["scenario"], "threads": list(h["threads"]), "schedule": r["schedule"],
+                             "results": r["results"], "final": r["snapshot"], "what": nf})
+    for sc, n in inv_by.items():
+        stats[sc] = {"schedules": n, "judged_by": "state invariant (next key index above every recorded path)",
+                     "invariant_failures": sum(1 for f in inv_fail if f["scenario"] == sc)}
+    for f in inv_fail[:3]:
+        V.violation({"property": PROP, "kind": "oracle",
+                     "what": "after this schedule the next key index of an account is not above a path recorded for it "
+                             "(account, path, next index): %s — the next operation is handed a key in use" % (f["what"][:3],),
+                     "scenario": f["scenario"], "threads": f["threads"], "schedule": f["schedule"], "results": f["results"],
+                     "final": f["final"], "replay_cmd": "./check C20 --replay <this file>"})
 
     open_ids = {k["id"] for k in vlib.known_findings(PROP)}
     for kid, n in sorted(known_hits.items()):
